@@ -122,8 +122,10 @@ class LoggingOptimizer(OptimizationAbstract):
             with ctr.get_lock():
                 trial = ctr.value
                 ctr.value += 1
-        _append(cls.log_path, {"algo": self.name, "params": params, "task": task.name, "mode": mode,
-                               "workers": workers, "pid": os.getpid(), "minmax": str(task.minmax), "trial": trial})
+        # "mode" is the mode the run was effectively made in (an optimizer remembers the last mode it was given)
+        _append(cls.log_path, {"algo": self.name, "params": params, "task": task.name, "mode": str(self._mode),
+                               "mode_arg": mode, "workers": workers, "pid": os.getpid(), "minmax": str(task.minmax),
+                               "trial": trial})
         row = (cls.scores or {}).get(key)
         score = 0.0 if row is None else float(row[trial % len(row)])
         best = res.best_solution.model_copy(update={"cost": score})
